@@ -140,8 +140,21 @@ func c02Amount(r *vRand, scale int) int64 {
 		return int64(r.Range(0, 6))
 	case 1:
 		return int64(r.Range(0, 20000))
-	default:
+	case 2:
 		return r.Int63n(int64(1) << uint(r.Range(30, 52)))
+	default:
+		// byte-scale memory as operators write it: k GiB / MiB multiples and values hugging the 2^31 / 2^32
+		// / 2^33 boundaries, where 32-bit fast paths and w*T products around 2^63 would go wrong
+		switch r.Intn(4) {
+		case 0:
+			return int64(r.Range(1, 16)) << 30
+		case 1:
+			return int64(r.Range(1, 64)) << uint(r.Range(26, 30))
+		case 2:
+			return (int64(1) << uint(r.Range(31, 33))) + int64(r.Range(-3, 3))
+		default:
+			return (int64(r.Range(1, 8)) << 30) + int64(r.Range(-2, 2))
+		}
 	}
 }
 
@@ -171,7 +184,7 @@ func TestVerifC02Tree(t *testing.T) {
 		if r == nil {
 			continue
 		}
-		scale := r.Intn(3)
+		scale := r.Intn(4)
 		cnt := r.Range(1, 6)
 		if r.Chance(1, 10) {
 			cnt = r.Range(7, 14)
@@ -240,7 +253,7 @@ func TestVerifC02Tree(t *testing.T) {
 		c02Oracle(h, total, ns)
 		h.End()
 	}
-	h.Close("generated sibling sets (0-14 nodes; values tiny/medium/2^30..2^52; weights 0, small, value-scale; guarantee sometimes; " +
+	h.Close("generated sibling sets (0-14 nodes; values tiny/medium/2^30..2^52/GiB-multiples and 2^31..2^33 boundaries; weights 0, small, value-scale; guarantee sometimes; " +
 		"total below/at/between/above the minimums and requests); each set run on 3 independently built trees; non-trivial = >=2 siblings compete for capacity above the minimums")
 }
 
